@@ -607,6 +607,30 @@ class CopyEscape(CopySuite):
                     a["exclude"] = [hx(dn), hx(b"!" + dn + b"/" + leaf)]
                 if rng.random() < 0.6:
                     a["replace"] = True
+            if rng.random() < 0.05:
+                # wildcard matches copied onto ONE destination name that is an existing non-directory: the first match (a symlink to a
+                # sentinel directory) takes the name, the next ones must not be written through it
+                nm1, nm2 = rng.choice([(b"a0", b"b.txt"), (b"!l", b"m"), (b"k1", b"k2")])
+                tgt = rng.choice([b"/outside/d", b"/outside", b"../outside/d", b"../outside"])
+                tree = [e for e in tree if bytes.fromhex(e["p"]).split(b"/")[0] not in (nm1, nm2)]
+                tree += [{"p": hx(nm1), "t": "symlink", "ln": hx(tgt), "uid": 0, "gid": 0, "mt": gen.MTIMES[0], "mode": 0o777},
+                         {"p": hx(nm2), "t": rng.choice(["file", "file", "dir"]), "size": 3, "uid": 0, "gid": 0, "mt": gen.MTIMES[1], "mode": 0o644}]
+                if tree[-1]["t"] == "dir":
+                    tree[-1].pop("size")
+                    tree[-1]["mode"] = 0o755
+                    tree.append({"p": hx(nm2 + b"/g"), "t": "file", "size": 3, "uid": 0, "gid": 0, "mt": gen.MTIMES[1], "mode": 0o644})
+                tree.sort(key=lambda e: gen.pathkey(bytes.fromhex(e["p"])))
+                dn = rng.choice([b"t", b"out"])
+                dst = [e for e in dst if bytes.fromhex(e["p"]).split(b"/")[0] != dn]
+                dst.append({"p": hx(dn), "t": rng.choice(["file", "file", "fifo"]), "size": 2, "uid": 0, "gid": 0, "mt": gen.MTIMES[0], "mode": 0o600})
+                if dst[-1]["t"] != "file":
+                    dst[-1].pop("size")
+                dst.sort(key=lambda e: gen.pathkey(bytes.fromhex(e["p"])))
+                a = {"src": hx(rng.choice([b"/*", b"/" + nm1[:1] + b"*" if nm1[:1] == nm2[:1] else b"/*"])), "dst": hx(b"/" + dn), "wild": True}
+                if rng.random() < 0.5:
+                    a["cdc"] = True
+                if rng.random() < 0.4:
+                    a["replace"] = True
             if rng.random() < 0.06:
                 # the destination has, at the path of a source NON-directory, a dangling link whose parent exists outside the destination
                 # root: materialising the entry must replace the link, not write through it
